@@ -296,18 +296,26 @@ def compute_ir(
         for (i, fd) in enumerate(analysis.form_data)
     ]
 
-    ir_expressions = [
-        _compute_expression_ir(
-            expr,
-            i,
-            prefix,
-            analysis,
-            options,
-            visualise,
-            object_names,
+    ir_expressions = []
+    named_expressions: set[int] = set()
+    for i, expr in enumerate(analysis.expressions):
+        expr_object_names = object_names
+        if id(expr[2]) in named_expressions:
+            # The same UFL expression at another set of points: only its first
+            # occurrence is called after the expression object, later ones are numbered
+            expr_object_names = {k: v for k, v in object_names.items() if k != id(expr[2])}
+        named_expressions.add(id(expr[2]))
+        ir_expressions.append(
+            _compute_expression_ir(
+                expr,
+                i,
+                prefix,
+                analysis,
+                options,
+                visualise,
+                expr_object_names,
+            )
         )
-        for i, expr in enumerate(analysis.expressions)
-    ]
 
     return DataIR(
         integrals=ir_integrals,
